@@ -56,13 +56,8 @@ func checkC04(c *Ctx) {
 		}
 	}
 	// R4.3
+	lockedSyncerMethods(c, "R4.3")
 	for _, m := range []string{"Write", "Sync"} {
-		fn := c.Method(CorePath, "lockedWriteSyncer", m)
-		if c.Anchor("R4.3", "zapcore.lockedWriteSyncer."+m, fn != nil) {
-			LockedAcross(c, "R4.3", fn, func(cl ssa.CallInstruction) bool {
-				return IsCallTo(cl, "(io.Writer).Write", "(go.uber.org/zap/zapcore.WriteSyncer).Sync", "(go.uber.org/zap/zapcore.WriteSyncer).Write")
-			}, "Mutex")
-		}
 		fb := c.Method(CorePath, "BufferedWriteSyncer", m)
 		if c.Anchor("R4.3", "zapcore.BufferedWriteSyncer."+m, fb != nil) {
 			LockedAcross(c, "R4.3", fb, func(cl ssa.CallInstruction) bool {
